@@ -667,6 +667,9 @@ class err_gs(err_node):
         """
         Params:     visitor - ref to visitor class
         """
+        if self.fic == 'FA' and getattr(visitor, 'skip_fa_groups', False):
+            # a functional acknowledgement is not acknowledged
+            return
         visitor.visit_gs_pre(self)
         for child in self.children:
             child.accept(visitor)
